@@ -15,3 +15,36 @@ L('count_partition', {'s': 'str', 'lo': 'int', 'hi': 'int'},
 L('npos_nonneg', {'s': 'str', 'lo': 'int', 'hi': 'int'}, 'npos(s, lo, hi) >= 0', ind='hi', base='lo')
 L('nneg_nonneg', {'s': 'str', 'lo': 'int', 'hi': 'int'}, 'nneg(s, lo, hi) >= 0', ind='hi', base='lo')
 L('nneut_nonneg', {'s': 'str', 'lo': 'int', 'hi': 'int'}, 'nneut(s, lo, hi) >= 0', ind='hi', base='lo')
+
+# two sequences that agree on [lo,hi) have the same sum there (used where a loop has built a list of per-residue values)
+L('sum_ext', {'a': 'list[real]', 'b': 'list[real]', 'lo': 'int', 'hi': 'int'},
+  'rsum(lambda j: a[j], lo, hi) == rsum(lambda j: b[j], lo, hi)',
+  ind='hi', base='lo', requires=['forall(lambda j: a[j] == b[j], lo, hi)'])
+
+# C09.b: the titration sum never increases with pH, and |net| <= total <= number of titratable residues
+L('hh_mono', {'s': 'str', 'p1': 'real', 'p2': 'real', 'lo': 'int', 'hi': 'int'},
+  'hh_sum(s, p1, -1, lo, hi) >= hh_sum(s, p2, -1, lo, hi)', ind='hi', base='lo', requires=['p1 <= p2'])
+L('hh_bounds', {'s': 'str', 'pH': 'real', 'lo': 'int', 'hi': 'int'},
+  'And(absv(hh_sum(s, pH, -1, lo, hi)) <= hh_sum(s, pH, 1, lo, hi), hh_sum(s, pH, 1, lo, hi) <= n_titratable(s, lo, hi), 0 <= hh_sum(s, pH, 1, lo, hi))',
+  ind='hi', base='lo')
+
+
+def T(name, params, claim, requires=(), uses=()):
+    """property-level theorem: follows directly from contracts' closed forms and lemma instances"""
+    LEMMAS[name] = Lemma(name, params, claim, None, None, requires, uses)
+
+
+# ---- C09 consequences at the level of the API's closed forms (get_NCPR(pH) = hh_sum(-1)/N, get_FCR(pH) = hh_sum(+1)/N)
+T('C09_ncpr_monotone', {'s': 'str', 'N': 'int', 'p1': 'real', 'p2': 'real'},
+  'hh_sum(s, p1, -1, 0, N) / toreal(N) >= hh_sum(s, p2, -1, 0, N) / toreal(N)',
+  requires=['N >= 1', 'p1 <= p2'], uses=['hh_mono(s, p1, p2, 0, N)'])
+T('C09_bounds', {'s': 'str', 'N': 'int', 'pH': 'real'},
+  'And(absv(hh_sum(s, pH, -1, 0, N) / toreal(N)) <= hh_sum(s, pH, 1, 0, N) / toreal(N), '
+  'hh_sum(s, pH, 1, 0, N) / toreal(N) <= toreal(n_titratable(s, 0, N)) / toreal(N))',
+  requires=['N >= 1'], uses=['hh_bounds(s, pH, 0, N)'])
+# ---- C04 identities over the closed forms
+T('C04_identities', {'s': 'str', 'N': 'int'},
+  'And(npos(s, 0, N) + nneg(s, 0, N) + nneut(s, 0, N) == N, '
+  'absv(toreal(npos(s, 0, N) - nneg(s, 0, N)) / toreal(N)) <= toreal(npos(s, 0, N) + nneg(s, 0, N)) / toreal(N), '
+  'toreal(npos(s, 0, N) + nneg(s, 0, N)) / toreal(N) <= 1)',
+  requires=['N >= 1'], uses=['count_partition(s, 0, N)', 'npos_nonneg(s, 0, N)', 'nneg_nonneg(s, 0, N)', 'nneut_nonneg(s, 0, N)'])
